@@ -795,6 +795,11 @@ func (m *modeler) structRule(e *env, s, t *space.Ty) *rt.Plan {
 			fp.ZeroGuard = m.zeroGuard(e, srcT, tf.T, false, upd)
 		} else {
 			fp.NoSource = fc.Fn.Src == nil
+			if fp.Whole && fc.Fn.Src != nil && e.srcKey == "*"+s.Key() && fc.Fn.Src.Key() == "*"+s.Key() {
+				// map . F | FUNC inside a pointer method: FUNC may take the original pointer
+				fp.AddrOf = true
+				srcT = space.P(s)
+			}
 			fp.Plan = m.custom(e, fc.Fn, srcT, tf.T)
 			if fp.Plan == nil {
 				failed = true
